@@ -244,6 +244,12 @@ def run(tier, seed):
         log(r.stdout[-3000:])
         raise vlib.ToolError("design model MC_Loader_q does not satisfy its properties (%s)" % r.invariant_violated)
     run.add_tlc(r, "MC_Loader_q (FixedPointScoped, TopoOrder, TemporariesEmpty, <>Done)")
+    if thorough:
+        r = vlib.tlc("MC_Loader", "MC_Loader_d4", workers=8, timeout=1800, tag="c08d4", xmx="12g")
+        if r.invariant_violated or not r.ok:
+            log(r.stdout[-3000:])
+            raise vlib.ToolError("design model MC_Loader_d4 does not satisfy its properties (%s)" % r.invariant_violated)
+        run.add_tlc(r, "MC_Loader_d4 (every set <= 4 of 17 items: FixedPointScoped, TopoOrder, OrderIndependent)")
 
     # ---- L: loads with no errors or warnings
     p = vlib.run_tool([lk.rv_load(), "loadcheck"], timeout=300)
